@@ -574,7 +574,7 @@ func vh_C08_L10_stream_queued_for_accept_survives_the_shutdown() {
 	net := &vNet{a: a, b: b, dropAt: -1, dupAt: -1}
 	net.settle(20, 4)
 	vassert(vIsShut(a) && vIsShut(b), "both sides end closed")
-	close(b.acceptCh) // the read loop has ended: on its way out it closes the accept queue ...
+	close(b.acceptCh)        // the read loop has ended: on its way out it closes the accept queue ...
 	close(b.readLoopCloseCh) // ... and says so
 	vMustNotBlock("AcceptStream returns")
 	st, aerr := b.AcceptStream()
